@@ -7,7 +7,7 @@ Request: `<op> <rep> <flags> <path> <data>` (tab separated)
   locations), `first`, `has`, `locate`, `walk`, `nodes`, `firstnode`
 * rep: `<array kind>.<object kind>`, e.g. `any.map`, `gen.gen`, `indexed.keyed`, `rslice.struct`
 * flags: the deviation flags that are on, one letter each (`-` = none):
-  `e` innerEmptySlice, `s` descentSiblings, `n` locNegEnd, `c` locStartClamp, `o` locateRoot, `w` walkDescentNoSelf, `u` nodesUnionNil,
+  `e` innerEmptySlice, `s` descentSiblings, `n` locNegEnd, `c` locStartClamp, `y` locEmptyArray, `o` locateRoot, `w` walkDescentNoSelf, `u` nodesUnionNil,
   `r` nodesFilterRev, `l` firstNodeLast, `z` nodesFilterNull, `m` typedMapWild, `t` typedObjFilter, `f` firstTypedSlice,
   `g` firstTypedWildOne, `h` hasTypedMap, `d` hasTypedDescent, `a` walkTypedArray; `P` = the pinned configuration
 * path: fragments separated by `/` (`-` = the empty path): `c:<hex key>`, `n:<int>`, `w`, `d`,
@@ -155,8 +155,8 @@ def parseRep (s : String) : Option Rep :=
 def parseCfg (s : String) : Option Cfg :=
   if s = "P" then some Cfg.pinned
   else if s = "-" then some Cfg.fixed
-  else if s.toList.all fun c => "esncowurlzmtfghda".toList.contains c then
-    some { innerEmptySlice := s.contains 'e', descentSiblings := s.contains 's', locNegEnd := s.contains 'n', locStartClamp := s.contains 'c', locateRoot := s.contains 'o',
+  else if s.toList.all fun c => "esncyowurlzmtfghda".toList.contains c then
+    some { innerEmptySlice := s.contains 'e', descentSiblings := s.contains 's', locNegEnd := s.contains 'n', locStartClamp := s.contains 'c', locEmptyArray := s.contains 'y', locateRoot := s.contains 'o',
            walkDescentNoSelf := s.contains 'w', nodesUnionNil := s.contains 'u', nodesFilterRev := s.contains 'r',
            firstNodeLast := s.contains 'l', nodesFilterNull := s.contains 'z', typedMapWild := s.contains 'm',
            typedObjFilter := s.contains 't', firstTypedSlice := s.contains 'f', firstTypedWildOne := s.contains 'g',
